@@ -145,5 +145,17 @@ func round1(f float64) float64 { return float64(int(f*10)) / 10 }
 // should hit at least once; misses are reported under probes_at_zero (a
 // warning, never an exit status).
 var expectedProbes = map[string][]string{
-	"C28": {"select-multiple-ready", "chan-blocked-then-woken", "mutex-contended", "long-tail-checked"},
+	"C07": {"deleted-under-iterator"},
+	"C12": {"map-order-permuted", "chan-blocked-then-woken"},
+	"C13": {"rejection-fired"},
+	"C14": {"snapshot-nested>=2"},
+	"C15": {"cycle-in-references"},
+	"C25": {"chan-blocked-then-woken"},
+	"C26": {"preempted", "rwmutex-writer-waited"},
+	"C27": {"pbf-multi-block", "pbf-group-overflow", "chan-blocked-then-woken"},
+	"C28": {"chan-blocked-then-woken", "mutex-contended", "long-tail-checked"},
+	"C35": {"preempted", "mutex-contended"},
+	"C36": {"map-order-permuted", "chan-blocked-then-woken"},
+	"C37": {"basic-build-ok", "compact-build-ok"},
+	"C40": {"preempted", "rwmutex-writer-waited", "rwmutex-reader-waited-for-writer", "porcupine-ok"},
 }
